@@ -78,7 +78,7 @@ pub fn gen_healthy_history(seed: u64, tier: Tier, check: &str) -> Scenario {
 
 fn run(seed: u64, tier: Tier, acc: &mut Acc) -> Vec<Found> {
     let mut sc = gen_healthy_history(seed, tier, "C09");
-    sc.params = json!({"enumerate": true});
+    sc.params = json!({"enumerate": true, "flips": if tier.thorough() { 6 } else { 2 }});
     match execute_found(&sc, acc) {
         Ok(f) => {
             acc.sample(sc.compact());
@@ -128,7 +128,7 @@ pub fn restore_all(w: &mut World, acc: &mut Acc) -> BTreeMap<u32, BandRestore> {
 }
 
 /// All single-file damages for a store: (path, kind, arg).
-pub fn enumerate_damages(w: &World, seed: u64, include_tails: bool, include_header: bool, flips_everywhere: bool) -> Vec<(String, DamageKind, u64)> {
+pub fn enumerate_damages(w: &World, seed: u64, include_tails: bool, include_header: bool, flips_everywhere: bool, flips: u64) -> Vec<(String, DamageKind, u64)> {
     let st = w.store();
     let mut r = Rng::new(seed ^ 0xDA3A6E);
     let mut out = Vec::new();
@@ -146,7 +146,7 @@ pub fn enumerate_damages(w: &World, seed: u64, include_tails: bool, include_head
             out.push((p.clone(), k, r.next_u64()));
         }
         if (p.starts_with("d/") || flips_everywhere) && !bytes.is_empty() {
-            for _ in 0..2 {
+            for _ in 0..flips {
                 out.push((p.clone(), DamageKind::BitFlip, r.next_u64()));
             }
         }
@@ -218,7 +218,7 @@ fn execute_found(sc: &Scenario, acc: &mut Acc) -> Result<Vec<Found>, String> {
         vec![d]
     } else if enumerate {
         acc.exhaustive_within_scenario = true;
-        enumerate_damages(&w, sc.seed, false, true, false)
+        enumerate_damages(&w, sc.seed, false, true, false, sc.params.get("flips").and_then(|v| v.as_u64()).unwrap_or(2))
     } else {
         vec![]
     };
